@@ -26,6 +26,9 @@ func vpMetrics() *Metrics {
 func VP_C17_afm_write() {
 	vpUnwind(3000)
 	m := vpMetrics()
+	// two unencoded glyphs whose names differ in letter case only: the glyph list's last tie-break decides their order
+	m.Glyphs["Eth"] = &GlyphInfo{WidthX: 700}
+	m.Glyphs["eth"] = &GlyphInfo{WidthX: 500}
 	// first run: one fixed iteration order; second run: every range over a map in arbitrary order
 	w1 := &vpWriter{failAt: -1}
 	e1 := m.Write(w1)
